@@ -113,6 +113,15 @@ def gen(tier, rng):
         ra = build(rng, [g.sps_nal(sa, rng)], [pn])
         rb = build(rng, [g.sps_nal(sb, rng)], [pn])
         cases += ["avcc " + hx(ra), "avcc " + hx(rb), "avcc " + hx(ra), "avcc " + hx(ra)]
+    # a PPS with an explicit slice-group map of a real picture size (level 5.1 / 6.2 MaxFS and just above) inside a record:
+    # implementation only, the ids in the created context are the ids in the bits (C05.big_map_check)
+    for cnt in ([36864, 36865, 139264, 139265] if tier == "quick" else [32768, 36864, 36865, 65536, 139264, 139265, 200000, 262144]):
+        sx = g.gen_sps(rng, sps_id=0, small=True)
+        px = g.gen_pps(rng, sx, pps_id=0, force={"num_slice_groups_minus1": rng.choice([1, 3, 7]), "map_type": 6, "npix": cnt - 1})
+        rb = g.enc_pps(px, rng).bytes()
+        pn = g.nal_bytes(8, 3, rb)
+        if len(pn) <= 65535:
+            cases.append("!avcc %s %s" % (hx(build(rng, [g.sps_nal(sx, rng)], [pn])), "raw:" + hx(rb)))
     # fixed header bytes: every profile x selected compatibility flags x the level bytes whose meaning depends on the flags
     for prof in range(256):
         for compat in (0x00, 0x10, 0xef, 0xff, rng.randrange(256)):
@@ -126,6 +135,12 @@ def gen(tier, rng):
 
 def extra_check(r):
     """the other Iterator entry points (nth, skip, count, last, size_hint) agree with next()"""
+    if r["case"].startswith("!avcc"):
+        from vlib.props import C05
+        rr = dict(r, case="!pps - " + r["case"].split()[2])
+        if "ctx=ok:" not in r["dev"]:
+            return ("value", "a well-formed record with a large explicit slice-group map was not turned into a context: " + r["dev"][-200:])
+        return C05.big_map_check(rr)
     if "alt=" in r["dev"]:
         return ("value", "an iterator entry point other than next() disagrees with next() or panics: " + r["dev"].split("alt=")[1][:200])
     return None
